@@ -22,6 +22,12 @@ import (
 type c19 struct{ base }
 
 func init() {
+	// a namespace URI with the characters XML reserves (RFC 3986 lets a query hold & and ')
+	model.Schemas["nsmarkup"] = `module nsm { namespace "urn:nsm?a=1&b='2'&lt=<x>"; prefix nsm; revision 0;
+  leaf top { type string; }
+  container c { leaf a { type string; } }
+  list l { key k; leaf k { type string; } leaf v { type int32; } }
+}`
 	eng.Register(&c19{base{id: "C19", level: "model_checking",
 		rule: "trees of C04 (structural schemas to the size bound, lists of 0..5 entries) and an all-types baseline tree with one leaf at a time over its value alphabet (XML-hostile text: markup characters, quotes, CDATA terminator, leading/trailing/inner whitespace, tab/newline/CR, non-ASCII) are written by both XML writers (XMLWtr2 doc pretty/compact, streaming XMLWtr); the output must parse with encoding/xml as a single root element with nothing after it, and reading it back with ReadXMLDoc + UpsertFrom into a fresh reference store must give the original tree; part interleave: every interleaving of the child elements of a harness-rendered document that keeps the relative order within each list/leaf-list must read to the same tree. states = distinct trees, transitions = write/read executions. Non-trivial = distinct (tree, writer) with non-empty tree / distinct interleaving"}})
 }
@@ -52,12 +58,13 @@ func (p *c19) Cases(tier string, emit func(interface{})) {
 		}
 		emit(c19Case{Part: "values", Schema: "types", Leaf: lf})
 	}
-	for _, sc := range []string{"base", "keys", "choice", "multi"} {
+	for _, sc := range []string{"base", "keys", "choice", "multi", "nsmarkup"} {
 		emit(c19Case{Part: "trees", Schema: sc, B: c04B(tier)})
 	}
 	emit(c19Case{Part: "lists", Schema: "base"})
 	emit(c19Case{Part: "starts", Schema: "base"})
 	emit(c19Case{Part: "starts", Schema: "multi"})
+	emit(c19Case{Part: "starts", Schema: "nsmarkup"})
 	emit(c19Case{Part: "interleave", Schema: "base"})
 	emit(c19Case{Part: "interleave", Schema: "keys"})
 }
